@@ -2405,7 +2405,13 @@ func sortedMapKeys(m reflect.Value) []reflect.Value {
 		}
 		// Keys of different types can print alike (1 and "1" in a map[interface{}]…):
 		// their type names decide, so the order never depends on map iteration
-		return fmt.Sprintf("%T", a.Interface()) < fmt.Sprintf("%T", b.Interface())
+		at, bt := fmt.Sprintf("%T", a.Interface()), fmt.Sprintf("%T", b.Interface())
+		if at != bt {
+			return at < bt
+		}
+		// Composite keys of one type can print alike too ([2]string{"a b", "c"} and
+		// {"a", "b c"}): the Go-syntax form quotes their strings
+		return fmt.Sprintf("%#v", a.Interface()) < fmt.Sprintf("%#v", b.Interface())
 	})
 	return keys
 }
